@@ -2,6 +2,7 @@
 mod catalogue;
 mod gen_enc;
 mod gen_geom;
+mod gen_path;
 mod gen_plan;
 mod gen_rs;
 mod gen_str;
@@ -103,6 +104,15 @@ fn main() {
             let mut out = Out::create(&out_path, false);
             gen_str::run_dec(&tier, seed, profile, &mut out);
             out.flush();
+        }
+        ("gen", "path") => {
+            let cases = gen_path::cases(&tier, seed);
+            let mut out = Out::create(&out_path, start > 0);
+            for (i, c) in cases.iter().enumerate().skip(start) {
+                out.put(&gen_path::run_case(i + 1, c));
+            }
+            out.flush();
+            eprintln!("path: {} cases", cases.len());
         }
         ("gen", "rs") => {
             let cases = gen_rs::cases(&tier, seed, &focus);
